@@ -568,7 +568,7 @@ Section ConcProv.
   Local Opaque settle_spawned.
   Lemma pinv_step T l cw cw' : pinv cw -> cstep T l cw = Some cw' -> incl (w_log (cw_w cw')) Lf -> pinv cw'.
   Proof.
-    intros (Hfg & Hbg & HI) H Hincl. unfold cstep in H. destruct l as [i|j].
+    intros (Hfg & Hbg & HI) H Hincl. unfold cstep in H. destruct l as [i|j|].
     - destruct (nth_error (cw_fg cw) i) as [t|] eqn:En; [|discriminate].
       destruct (Forall2_nth _ _ _ _ _ Hfg En) as (q & Hq & Hok).
       destruct t as [q'|q' p| | |]; try discriminate.
@@ -605,16 +605,18 @@ Section ConcProv.
         * apply Forall_replace; [exact Hbg|]. apply bg_state_pok. exists u. exact Hp2.
         * apply settle_spawned_pok. eapply Forall_impl; [|exact HF]. intros b Hb. exists u. exact Hb.
       + exact HI1.
+    - injection H as <-. split; [exact Hfg|split; [exact Hbg|exact HI]].
   Qed.
 
   Lemma cstep_log T l cw cw' : cstep T l cw = Some cw' -> exists y, w_log (cw_w cw') = y ++ w_log (cw_w cw).
   Proof.
-    unfold cstep. destruct l as [i|j].
+    unfold cstep. destruct l as [i|j|].
     - destruct (nth_error (cw_fg cw) i) as [[q|q p| | |]|]; try discriminate.
       + destruct (settle _ _ _). intros H. injection H as <-. exists []. reflexivity.
       + destruct (perform None p (cw_w cw)) as [p1 w1] eqn:Ep. destruct (settle _ _ _). intros H. injection H as <-. exact (perform_log _ _ _ _ _ Ep).
     - destruct (nth_error (cw_bg cw) j) as [[| |p| |]|]; try discriminate.
       destruct (perform (Some T) p (cw_w cw)) as [p1 w1] eqn:Ep. destruct (settle _ _ _). intros H. injection H as <-. exact (perform_log _ _ _ _ _ Ep).
+    - intros H. injection H as <-. exists []. reflexivity.
   Qed.
 
   Lemma schedule_log T sched : forall cw n cw' n', run_schedule T sched cw n = (cw', n') -> exists y, w_log (cw_w cw') = y ++ w_log (cw_w cw).
